@@ -28,6 +28,12 @@ var c1witnesses = []c1witness{
 		"#A: {}\ny: {c: {c: {b: _}, c: {#A}}}\n", "#A: {}\ny: {c: {c: {b: _}, c: {{#A & _}}}}\n"},
 	{"closedness-through-sibling-field-references-depends-on-order",
 		"#B: {x: {}}\n#A: {x: {b: _}}\nw: {p: #B.x, q: #A.x, r: p & q}\n", "#B: {x: {}}\n#A: {x: {b: _}}\nw: {r: p & q, q: #A.x, p: #B.x}\n"},
+	{"closedness-lost-when-alias-of-definition-comes-first-in-all-reference-conjunction",
+		"#A: {x: {a: _}}\nC: #A\nw: {c: 1}\nv: #A.x & w & C.x\n", "#A: {x: {a: _}}\nC: #A\nw: {c: 1}\nv: C.x & (#A.x & w)\n"},
+	{"default-of-nested-marked-disjunction-depends-on-operand-order",
+		"m3: (1 | (*2 | 3)) & (2 | 3)\n", "m3: (2 | 3) & (1 | (*2 | 3))\n"},
+	{"disjunct-selection-under-pattern-constraint-with-reference",
+		"#A: {...}\ny: {c: {c: {}} | {c!: #A}, [=~\"c$\"]: #A}\n", "#A: {...} & {...}\ny: {c: {c: {}} | {c!: #A}, [=~\"c$\"]: #A}\n"},
 	{"top-unified-with-struct-holding-failing-comprehension",
 		"x: {if false {}}\n", "x: _ & {if false {}}\n"},
 	{"top-unified-with-struct-holding-failing-comprehension",
